@@ -1,6 +1,7 @@
 package checks
 
 import (
+	"context"
 	"errors"
 	"fmt"
 	"os"
@@ -9,6 +10,8 @@ import (
 	"syscall"
 	"testing/synctest"
 	"time"
+
+	"github.com/DataDog/datadog-traceroute/traceroute"
 
 	"verif/harness/drive"
 	"verif/harness/fw"
@@ -122,8 +125,64 @@ func checkC10() fw.Check {
 					cases = append(cases, fw.Case{ID: id, Bubble: true, Run: func(c *fw.Ctx) { runC10Case(c, id, v, w, tier == "thorough") }})
 				}
 			}
+			// request level: the same fault classes hitting ONE participant (a path run or an end-to-end probe) of a
+			// RunTraceroute request: the request returns an error wrapping the cause and no result, every handle of
+			// every participant is closed exactly once
+			for _, proto := range []string{"udp", "icmp", "tcp"} {
+				for _, op := range []string{"factory", "filter", "write", "read"} {
+					for j := 0; j < 4; j++ {
+						proto, op, j := proto, op, j
+						id := fmt.Sprintf("C10/request/%s/%s/participant%d", proto, op, j)
+						cases = append(cases, fw.Case{ID: id, Bubble: true, Run: func(c *fw.Ctx) { runC10Request(c, id, proto, op, j) }})
+					}
+				}
+			}
 			return cases
 		},
+	}
+}
+
+func runC10Request(c *fw.Ctx, id, proto, op string, j int) {
+	resetProcessState()
+	v := map[string]refmatch.Variant{"udp": refmatch.VariantByName("udp4"), "icmp": refmatch.VariantByName("icmp4"), "tcp": refmatch.VariantByName("syn")}[proto]
+	target := drive.TargetFor(v, 60+c.Worker)
+	params := traceroute.TracerouteParams{Hostname: target.String(), Port: 33434, Protocol: proto, MinTTL: 1, MaxTTL: 4, Delay: 2, Timeout: 30 * time.Millisecond,
+		TCPMethod: traceroute.TCPConfigSYN, TracerouteQueries: 2, E2eQueries: 2}
+	env, err := newReqEnv(c, params, target, 33434, false)
+	if err != nil {
+		c.Inconclusive(err.Error())
+		return
+	}
+	defer env.close()
+	env.modelFor = func(k int, e *simEnv) *pathModel { return flowPath(k, e, 3, true, 300*time.Microsecond) }
+	key := simnet.FaultKey{Handle: j, Op: op, K: 1}
+	if op == "factory" {
+		key = simnet.FaultKey{Handle: -1, Op: op, K: j + 1}
+	}
+	env.w.Faults[key] = simnet.Fault{Err: fmt.Errorf("socket layer: %w", errInjected)}
+	res, rerr := env.run(context.Background())
+	synctest.Wait()
+	env.w.Lock()
+	fired := len(env.w.Fired) > 0
+	env.w.Unlock()
+	env.monitors(id)
+	if g := repoGoroutines(); len(g) > 0 {
+		c.Violate("C10", "goroutine-leak/request/"+op, fmt.Sprintf("%s: goroutines of the repository still alive after RunTraceroute returned: %v", id, g), nil)
+	}
+	if !fired {
+		return
+	}
+	c.Nontrivial(fmt.Sprintf("request/%s/%s/participant%d", proto, op, j))
+	c.Count("request_faults_fired", 1)
+	switch {
+	case rerr == nil && res != nil:
+		c.Violate("C10", "fault-swallowed/request/"+op, fmt.Sprintf("%s: a fatal %s fault hit participant %d of the request, which still returned a result (runs=%d, e2e samples=%v)", id, op, j, len(res.Traceroute.Runs), res.E2eProbe.RTTs), nil)
+	case rerr == nil:
+		c.Violate("C10", "nil-nil/request", id+": nil result and nil error", nil)
+	case res != nil:
+		c.Violate("C10", "result-and-error/request/"+op, fmt.Sprintf("%s: both a result and an error: %v", id, rerr), nil)
+	case !errors.Is(rerr, errInjected):
+		c.Violate("C10", "cause-lost/request/"+op, fmt.Sprintf("%s: the request's error does not wrap the injected cause: %v", id, rerr), nil)
 	}
 }
 
